@@ -94,6 +94,17 @@ type service struct {
 	// writeMessage mutex - serializes writes to the outgoing buffer.
 	wmu sync.Mutex
 
+	// ackmu orders "send a request and register it in its ack queue" (publish
+	// with QoS 1/2, subscribe, unsubscribe, ping) against "mark a request as
+	// acknowledged" (ack, called by processIncoming). Without it an
+	// acknowledgement that is processed after the request has been written but
+	// before it has been registered finds no entry and is dropped, and the
+	// completion of the request never fires. It guards no field. It is taken
+	// before wmu, never while wmu is held, and it is never held while a
+	// completion callback runs (a callback may itself publish, subscribe or
+	// ping on this connection).
+	ackmu sync.Mutex
+
 	// Whether this is service is closed or not.
 	closed int64
 
@@ -276,6 +287,23 @@ func (svc *service) stop() {
 }
 
 func (svc *service) publish(msg *message.PublishMessage, onComplete OnCompleteFunc) error {
+	if msg.QoS() == message.QosAtMostOnce {
+		// Not acknowledged, nothing to register: onComplete is called at once,
+		// without ackmu.
+		return svc.sendPublish(msg, onComplete)
+	}
+
+	// An acknowledgement that arrives before the request is registered waits
+	// for the registration, see ackmu.
+	svc.ackmu.Lock()
+	defer svc.ackmu.Unlock()
+
+	return svc.sendPublish(msg, onComplete)
+}
+
+// sendPublish writes the PUBLISH message and, for QoS 1 and 2, registers it in
+// its ack queue. For these the caller holds ackmu.
+func (svc *service) sendPublish(msg *message.PublishMessage, onComplete OnCompleteFunc) error {
 	_, err := svc.writeMessage(msg)
 	if err != nil {
 		return fmt.Errorf("(%s) Error sending %s message: %v", svc.cid(), msg.Name(), err)
@@ -304,6 +332,10 @@ func (svc *service) subscribe(msg *message.SubscribeMessage, onComplete OnComple
 	if onPublish == nil {
 		return fmt.Errorf("onPublish function is nil. No need to subscribe")
 	}
+
+	// see ackmu; held until the request is registered
+	svc.ackmu.Lock()
+	defer svc.ackmu.Unlock()
 
 	_, err := svc.writeMessage(msg)
 	if err != nil {
@@ -382,6 +414,10 @@ func (svc *service) subscribe(msg *message.SubscribeMessage, onComplete OnComple
 }
 
 func (svc *service) unsubscribe(msg *message.UnsubscribeMessage, onComplete OnCompleteFunc) error {
+	// see ackmu; held until the request is registered
+	svc.ackmu.Lock()
+	defer svc.ackmu.Unlock()
+
 	_, err := svc.writeMessage(msg)
 	if err != nil {
 		return fmt.Errorf("(%s) Error sending %s message: %v", svc.cid(), msg.Name(), err)
@@ -446,6 +482,10 @@ func (svc *service) unsubscribe(msg *message.UnsubscribeMessage, onComplete OnCo
 
 func (svc *service) ping(onComplete OnCompleteFunc) error {
 	msg := message.NewPingreqMessage()
+
+	// see ackmu; held until the request is registered
+	svc.ackmu.Lock()
+	defer svc.ackmu.Unlock()
 
 	_, err := svc.writeMessage(msg)
 	if err != nil {
